@@ -97,6 +97,7 @@ PROPS["C04"] = dict(
         "an entry re-registered from a callback during a sweep may or may not be expired by that same sweep",
         "timeout-list keys are unique among live items (the in-flight table's PutIfMissing guarantees it)",
         "the skip list (not used in production) is exercised with Insert/Delete/Expire only",
+        "'the same session and identifier' is read per direction: an exchange started by the peer (stored PUBREC, PUBREL awaited) and an exchange started by the broker may use the same number at the same time (MQTT: independent identifier spaces; repair 512b194)",
     ],
     runs=[
         dict(name="regress", pkg="c04", run="TestRegress"),
@@ -225,7 +226,8 @@ PROPS["C01"] = dict(
 _L3_NOTE = ("Trusted: Go toolchain, rapid, the harness (internal/sim: fake connections with virtual deadlines, an MQTT codec independent of the "
             "broker's, the quiescence detector, the wrappers around the node's log / registry / in-flight table) and the verif hook counters. "
             "The broker node is assembled from the real constructors exactly as cmd/wasp/main.go does. A verdict is only given at detected "
-            "quiescence; a wall-clock budget overrun is 'inconclusive' (exit 2). A failing case is re-executed and only reported when it fails again.")
+            "quiescence; a wall-clock budget overrun gives no verdict for that case: up to 3 such cases per process are tolerated and counted "
+            "(inconclusive_cases), more end in exit 2. A failing case is re-executed and only reported when it fails again.")
 
 PROPS["C02"] = dict(
     level="exploration",
